@@ -141,3 +141,15 @@ prop(
              "NOT COVERED: write/write races (an adopt that read 'no runner' before launch and appends after the flush), GIL-atomicity of set(ws.data)"],
     design_ref="5/C03",
 )
+
+prop(
+    "C09",
+    ["contracts.c08_controllers", "contracts.c09_periodic"],
+    "proof",
+    "contract-based deductive verification: iteration contracts on the `while True` loops of the run coroutines (one step, then one sleep of the interval), callee contracts of C08 for the steps, virtual clock through the assumed contract of trio.sleep",
+    "for every shipped periodic service the loop body is proved to perform exactly one step (regulate with the configured interval / one rule / one conditional flush / one adjustment) and exactly one trio.sleep(interval) per iteration, for all states and intervals; run never returns and raises nothing but trio.Cancelled; the bound on demand change over a time span is an arithmetic lemma; " + CONC_NOTE,
+    "trusted: pyvc's Python semantics; trio.sleep(d) advances trio's clock by exactly d or raises Cancelled; real scheduling delay is outside; well-behaved pool",
+    trusted=["assumed: trio.sleep(d) returns after exactly d of the run's clock or raises trio.Cancelled; between two iterations the environment may change every pool's state",
+             "NOT COVERED: real scheduling delay ('one per interval' is relative to trio's clock); 'indefinitely' beyond 'no path returns'"],
+    design_ref="5/C09",
+)
